@@ -117,6 +117,17 @@ CHECKS["C20"] = dict(
     technique="Lean 4 proof (rejection completeness, acceptance => generator totality, qualifier recovery) + correspondence + exhaustive single-field execution on hostile names",
 )
 
+CHECKS["C05"] = dict(
+    category="proof",
+    text="Lean 4 theorems (Properties/C05.lean) on the model of QueryRewriter's simple path (Layer/Rewriter.lean): round trip — every single-model selection rendered as SQL with model-qualified OR unqualified names is extracted to exactly the structured query "
+         "(qualified metrics and dimensions in order, WHERE as the list of its conjuncts with unqualified columns qualified by the model, ORDER BY/LIMIT/OFFSET as written; C05_roundtrip, with the string-splitting facts proved, not assumed), HAVING is kept, "
+         "JOIN / QUALIFY / non-literal LIMIT are rejected, SQL over non-model tables is passed through. Tie: the argument tuple the real rewriter hands to SQLGenerator.generate (captured by wrapping its generator object from outside) and the dispatch kind vs extractSimple/dispatch on the same statement. "
+         "Search: layer.sql(text) rows and column names vs the structured query for 6 renderings of each generated query (incl. FROM metrics, CTE and sub-select wrappers), a battery of unsupported constructs, equivalent spellings and non-semantic SQL.",
+    design_ref="DESIGN.md §4 C05",
+    note="The CTE/sub-select path, multi-model SQL and Yardstick syntax are covered by the end-to-end arm only; sqlglot's parser is trusted. Two genuine defects fixed (was F6).",
+    technique="Lean 4 proof (extraction round trip incl. string-split lemmas, rejection theorems) + tuple-level correspondence + end-to-end differential on DuckDB",
+)
+
 CHECKS["C16"] = dict(
     category="proof",
     text="Lean 4 theorem C16_string_one_literal: for EVERY value and every continuation, the formatted string/date value lexes as exactly one string literal whose content is the value (round-trip), "
